@@ -14,8 +14,10 @@ import (
 	"encoding/json"
 	"errors"
 	"fmt"
+	"io"
 	"net/http"
 	"os"
+	"sort"
 	"strconv"
 	"strings"
 	"sync"
@@ -45,13 +47,23 @@ var Kinds = []string{KURI, KURIPost, KRaw, KJSONLine, KJSONArr}
 
 // Layouts per format (what surrounds the entries; never changes which entries the file has):
 //
-//	uri      0 one entry per line   1 [headers] + blank lines       2 CRLF line ends, no newline after the last entry   3 blank line first, a [header] before every entry, indented entries
-//	uripost  0 as written by docs   1 [header] + blank lines        2 last entry without its final newline              3 blank line first, a [header] before every entry
+//	uri      0 one entry per line   1 blank lines (top, after the first entry)   2 CRLF line ends, no newline after the last line   3 blank line first, indented lines, `[ Key :  v ]` spelling of header lines
+//	uripost  0 as written by docs   1 blank line first + newline after empty bodies   2 last entry without its final newline   3 blank line first, `[ Key :  v ]` spelling of header lines
 //	raw      0 back to back         1 blank line after each entry   2 blank line first, two blank lines between, CRLF after the size line
 //	jsonl    0 one object per line  1 a blank line after the first  2 pretty-printed multi-line objects                 3 all objects on ONE line separated by a space
 //	jsonarr  0 compact              1 one element per line          2 pretty-printed (indent) with white space before `[`
 //
 // With Src = "uris" (uri only) the lines of the layout are the elements of the `uris:` list.
+//
+// Headers are a dimension of their own (round 2), visible to the model: Cell.FH = headers the SOURCE declares at a
+// position, Cell.CH = the provider's `headers:` option.  What "at position pos" means depends on the format:
+//
+//	uri, uripost   a `[Key: val]` line before the line of entry pos (pos = number of entries: after the last entry); it
+//	               applies to every LATER entry of the same pass (the decoder's header accumulator)
+//	jsonl, jsonarr a member of the "headers" object of entry pos (applies to that entry only)
+//	raw            a `Key: val` line of the request of entry pos (applies to that entry only)
+//
+// No layout adds a header of its own.
 const MaxLayout = 3
 
 func Layouts(kind string) int {
@@ -73,13 +85,24 @@ type Cell struct {
 	Layout  int
 	Uris    bool // uri only: the entries are given inline (`uris:`), not in a file
 	YAML    bool // construct through the plugin registry from a YAML-shaped config map instead of NewProvider
+	FH      []HdrAt // headers declared by the source, in order
+	CH      []Hdr   // the `headers:` option, in order
 	Tick    time.Duration
+}
+
+type Hdr struct{ Key, Val string }
+
+type HdrAt struct {
+	Pos      int
+	Key, Val string
 }
 
 type Obs struct {
 	Construct string // "" or constructor error
 	Seq       []int  // entry identities in acquisition order, up to Cap
 	SeqTags   []string
+	SeqHdr    []string // per acquired ammo: Host and headers of the request it carries, canonical (see HeaderString)
+	ReqBad    string   // first acquired ammo whose method / body is not the one of its entry ("" = none)
 	Cut       bool   // cap reached, context cancelled by the harness
 	Run       string // nil|canceled|limit|passes|noammo|other:<..>|noreturn
 	End       string // closed (the consumer saw ok=false) | blocked | spinning
@@ -177,43 +200,93 @@ type jsonEntry struct {
 	URI     string            `json:"uri"`
 	Tag     *string           `json:"tag,omitempty"`
 	Headers map[string]string `json:"headers,omitempty"`
+	Body    string            `json:"body,omitempty"`
 }
 
-func jsonOf(i int, tag string) jsonEntry {
-	e := jsonEntry{Host: "h.example", Method: "GET", URI: entryPath(i)}
+func jsonOf(c Cell, i int, tag string) jsonEntry {
+	e := jsonEntry{Host: JSONHost, Method: "GET", URI: entryPath(i)}
 	if tag != "" || i%2 == 1 { // an untagged entry: `"tag":""` or no tag member at all
 		t := tag
 		e.Tag = &t
 	}
-	if i%3 == 0 {
-		e.Headers = map[string]string{"X-I": strconv.Itoa(i)}
+	for _, h := range c.FH {
+		if h.Pos == i {
+			if e.Headers == nil {
+				e.Headers = map[string]string{}
+			}
+			e.Headers[h.Key] = h.Val
+		}
 	}
+	e.Body = BodyOf(c.Kind, i)
 	return e
+}
+
+// JSONHost is the host of every http/json and raw entry.
+const JSONHost = "h.example"
+
+// BodyOf is the request body of entry i ("" = none), MethodOf its method.
+func BodyOf(kind string, i int) string {
+	switch kind {
+	case KURIPost:
+		if i%2 == 0 {
+			return fmt.Sprintf("body-%d", i)
+		}
+	case KJSONLine, KJSONArr:
+		if i%4 == 2 {
+			return fmt.Sprintf("jb-%d", i)
+		}
+	}
+	return ""
+}
+
+func MethodOf(kind string) string {
+	if kind == KURIPost {
+		return "POST"
+	}
+	return "GET"
+}
+
+func hdrLine(c Cell, h HdrAt) string {
+	if c.Layout == 3 {
+		return fmt.Sprintf("[ %s :  %s ]", h.Key, h.Val)
+	}
+	return fmt.Sprintf("[%s: %s]", h.Key, h.Val)
+}
+
+// hdrLinesAt: the header lines declared before entry pos (uri / uripost)
+func hdrLinesAt(c Cell, pos int) []string {
+	var ls []string
+	for _, h := range c.FH {
+		if h.Pos == pos {
+			ls = append(ls, hdrLine(c, h))
+		}
+	}
+	return ls
 }
 
 // URILines are the lines of a uri ammo source (file lines, or the elements of `uris:`).
 func URILines(c Cell) []string {
 	var ls []string
 	switch c.Layout {
-	case 1:
-		ls = append(ls, "[X-Common: yes]", "")
-	case 3:
+	case 1, 3:
 		ls = append(ls, "")
 	}
 	for i, t := range c.Tags {
+		ls = append(ls, hdrLinesAt(c, i)...)
 		l := withTag(entryPath(i), t)
 		switch c.Layout {
 		case 1:
 			ls = append(ls, l)
 			if i == 0 {
-				ls = append(ls, "[X-Later: 1]")
+				ls = append(ls, "", "")
 			}
 		case 3:
-			ls = append(ls, fmt.Sprintf("[X-I: %d]", i), "  "+l)
+			ls = append(ls, "  "+l)
 		default:
 			ls = append(ls, l)
 		}
 	}
+	ls = append(ls, hdrLinesAt(c, len(c.Tags))...)
 	return ls
 }
 
@@ -231,25 +304,21 @@ func FileFor(c Cell) (string, string) {
 		}
 		return ".uri", b.String()
 	case KURIPost:
-		if c.Layout == 1 {
-			b.WriteString("[X-Common: yes]\n")
-		}
-		if c.Layout == 3 {
+		if c.Layout == 1 || c.Layout == 3 {
 			b.WriteString("\n")
 		}
 		for i, t := range c.Tags {
-			body := ""
-			if i%2 == 0 {
-				body = fmt.Sprintf("body-%d", i)
+			for _, l := range hdrLinesAt(c, i) {
+				b.WriteString(l + "\n")
 			}
-			if c.Layout == 3 {
-				fmt.Fprintf(&b, "[X-I: %d]\n", i)
-			}
+			body := BodyOf(KURIPost, i)
 			fmt.Fprintf(&b, "%s\n%s", withTag(fmt.Sprintf("%d %s", len(body), entryPath(i)), t), body)
-			last := i == len(c.Tags)-1
-			if (body != "" || c.Layout == 1 || c.Layout == 3) && !(c.Layout == 2 && last) {
+			if body != "" || c.Layout == 1 || c.Layout == 3 {
 				b.WriteString("\n")
 			}
+		}
+		for _, l := range hdrLinesAt(c, len(c.Tags)) {
+			b.WriteString(l + "\n")
 		}
 		s := b.String()
 		if c.Layout == 2 {
@@ -261,7 +330,13 @@ func FileFor(c Cell) (string, string) {
 			b.WriteString("\n")
 		}
 		for i, t := range c.Tags {
-			req := fmt.Sprintf("GET %s HTTP/1.1\r\nHost: h.example\r\nX-I: %d\r\n\r\n", entryPath(i), i)
+			req := fmt.Sprintf("GET %s HTTP/1.1\r\nHost: %s\r\n", entryPath(i), JSONHost)
+			for _, h := range c.FH {
+				if h.Pos == i {
+					req += h.Key + ": " + h.Val + "\r\n"
+				}
+			}
+			req += "\r\n"
 			eol := "\n"
 			if c.Layout == 2 {
 				eol = "\r\n"
@@ -277,7 +352,7 @@ func FileFor(c Cell) (string, string) {
 		return ".raw", b.String()
 	case KJSONLine:
 		for i, t := range c.Tags {
-			e := jsonOf(i, t)
+			e := jsonOf(c, i, t)
 			switch c.Layout {
 			case 2:
 				j, _ := json.MarshalIndent(e, "", "  ")
@@ -300,7 +375,7 @@ func FileFor(c Cell) (string, string) {
 	case KJSONArr:
 		es := make([]jsonEntry, len(c.Tags))
 		for i, t := range c.Tags {
-			es[i] = jsonOf(i, t)
+			es[i] = jsonOf(c, i, t)
 		}
 		switch c.Layout {
 		case 2:
@@ -347,6 +422,15 @@ func pluginType(kind string) string {
 	return "http/json"
 }
 
+// cfgHeaderLines: the `headers:` option, `[Key: val]` per element
+func cfgHeaderLines(c Cell) []string {
+	var ls []string
+	for _, h := range c.CH {
+		ls = append(ls, fmt.Sprintf("[%s: %s]", h.Key, h.Val))
+	}
+	return ls
+}
+
 type ammoHolder struct {
 	Ammo core.Provider `config:"ammo"`
 }
@@ -364,6 +448,7 @@ func construct(c Cell, path string) (p core.Provider, err error) {
 			Passes:      uint(c.Passes),
 			Preload:     c.Preload,
 			ChosenCases: c.Chosen,
+			Headers:     cfgHeaderLines(c),
 		}
 		if c.Uris {
 			conf.Uris = URILines(c)
@@ -396,6 +481,13 @@ func construct(c Cell, path string) (p core.Provider, err error) {
 	if c.Preload {
 		m["preload"] = true
 	}
+	if len(c.CH) > 0 {
+		hs := []any{}
+		for _, l := range cfgHeaderLines(c) {
+			hs = append(hs, l)
+		}
+		m["headers"] = hs
+	}
 	if c.Chosen != nil {
 		cs := []any{}
 		for _, s := range c.Chosen {
@@ -417,16 +509,69 @@ type httpGunAmmo interface {
 	Request() (*http.Request, *netsample.Sample)
 }
 
-func identify(a core.Ammo) (int, string) {
-	if v, ok := a.(httpGunAmmo); ok {
-		req, sample := v.Request()
-		tag := sample.Tags()
-		if req == nil || req.URL == nil {
-			return -1, tag
-		}
-		return identOfPath(req.URL.Path), tag
+// HeaderString: `<Host>^K=v1+v2&K2=v` — the Host the request is sent with and its headers, keys sorted.
+func HeaderString(req *http.Request) string {
+	keys := make([]string, 0, len(req.Header))
+	for k := range req.Header {
+		keys = append(keys, k)
 	}
-	return -2, fmt.Sprintf("%T", a)
+	sort.Strings(keys)
+	clean := func(s string) string {
+		return strings.Map(func(r rune) rune {
+			switch r {
+			case ' ', '\t', '\n', '\r', '|', '/', '&', '+', '^', '=', ':':
+				return '_'
+			}
+			return r
+		}, s)
+	}
+	var b strings.Builder
+	b.WriteString(clean(req.Host))
+	b.WriteString("^")
+	for i, k := range keys {
+		if i > 0 {
+			b.WriteString("&")
+		}
+		b.WriteString(clean(k))
+		b.WriteString("=")
+		for j, v := range req.Header[k] {
+			if j > 0 {
+				b.WriteString("+")
+			}
+			b.WriteString(clean(v))
+		}
+	}
+	return b.String()
+}
+
+type identity struct {
+	id       int
+	tag, hdr string
+	bad      string // method / body not the one of the entry
+}
+
+func identify(kind string, a core.Ammo) identity {
+	v, ok := a.(httpGunAmmo)
+	if !ok {
+		return identity{id: -2, tag: fmt.Sprintf("%T", a)}
+	}
+	req, sample := v.Request()
+	tag := sample.Tags()
+	if req == nil || req.URL == nil {
+		return identity{id: -1, tag: tag}
+	}
+	r := identity{id: identOfPath(req.URL.Path), tag: tag, hdr: HeaderString(req)}
+	body := ""
+	if req.Body != nil {
+		b, _ := io.ReadAll(req.Body)
+		body = string(b)
+	}
+	if req.Method != MethodOf(kind) {
+		r.bad = fmt.Sprintf("e%d:method_%s", r.id, req.Method)
+	} else if r.id >= 0 && body != BodyOf(kind, r.id) {
+		r.bad = fmt.Sprintf("e%d:body_%q", r.id, body)
+	}
+	return r
 }
 
 func classifyErr(err error) string {
@@ -536,10 +681,14 @@ func runOnce(c Cell) Obs {
 			}
 			k++
 			if c.Cap == 0 || k <= c.Cap {
-				id, tag := identify(a)
+				it := identify(c.Kind, a)
 				mu.Lock()
-				obs.Seq = append(obs.Seq, id)
-				obs.SeqTags = append(obs.SeqTags, tag)
+				obs.Seq = append(obs.Seq, it.id)
+				obs.SeqTags = append(obs.SeqTags, it.tag)
+				obs.SeqHdr = append(obs.SeqHdr, it.hdr)
+				if it.bad != "" && obs.ReqBad == "" {
+					obs.ReqBad = it.bad
+				}
 				mu.Unlock()
 				events.Add(1)
 				if c.Cap != 0 && k == c.Cap {
@@ -625,5 +774,6 @@ func runOnce(c Cell) Obs {
 	defer mu.Unlock()
 	obs.Seq = append([]int(nil), obs.Seq...)
 	obs.SeqTags = append([]string(nil), obs.SeqTags...)
+	obs.SeqHdr = append([]string(nil), obs.SeqHdr...)
 	return obs
 }
